@@ -103,13 +103,22 @@ thread_local! {
     static C_ARMED: Cell<bool> = const { Cell::new(false) };
     static C_COUNT: Cell<u64> = const { Cell::new(0) };
     static C_BYTES: Cell<u64> = const { Cell::new(0) };
+    static C_LIVE: Cell<i64> = const { Cell::new(0) };
     static C_BUDGET: Cell<u64> = const { Cell::new(u64::MAX) };
     static C_FLAG: Cell<*const AtomicU32> = const { Cell::new(std::ptr::null()) };
 }
 /// cumulative bytes one guarded call may allocate (contains memory blow-ups; the parked thread keeps what it holds)
-const BYTE_BUDGET: u64 = 2 << 30;
+const BYTE_BUDGET: u64 = 3 << 30;
 
 pub struct Counting;
+#[inline]
+fn untick(size: usize) {
+    let _ = C_ARMED.try_with(|a| {
+        if a.get() {
+            C_LIVE.with(|c| c.set(c.get() - size as i64));
+        }
+    });
+}
 #[inline]
 fn tick(size: usize) {
     let _ = C_ARMED.try_with(|a| {
@@ -119,10 +128,16 @@ fn tick(size: usize) {
                 c.set(v);
                 v
             });
-            let b = C_BYTES.with(|c| {
-                let v = c.get() + size as u64;
+            // bytes held by this call (allocated minus freed while armed); the maximum is reported as evidence
+            let b = C_LIVE.with(|c| {
+                let v = c.get() + size as i64;
                 c.set(v);
-                v
+                v.max(0) as u64
+            });
+            C_BYTES.with(|c| {
+                if b > c.get() {
+                    c.set(b)
+                }
             });
             if n > C_BUDGET.with(|b| b.get()) || b > BYTE_BUDGET {
                 a.set(false);
@@ -148,6 +163,7 @@ unsafe impl GlobalAlloc for Counting {
         System.alloc(l)
     }
     unsafe fn dealloc(&self, p: *mut u8, l: Layout) {
+        untick(l.size());
         System.dealloc(p, l)
     }
     unsafe fn alloc_zeroed(&self, l: Layout) -> *mut u8 {
@@ -155,6 +171,7 @@ unsafe impl GlobalAlloc for Counting {
         System.alloc_zeroed(l)
     }
     unsafe fn realloc(&self, p: *mut u8, l: Layout, n: usize) -> *mut u8 {
+        untick(l.size());
         tick(n);
         System.realloc(p, l, n)
     }
@@ -243,7 +260,7 @@ pub fn install_panic_hook() {
 pub fn budget(n: usize, m: usize) -> u64 {
     // >= 100x the largest count observed on the unchanged tree (max_fraction_of_budget_ppm in every evidence file)
     let s = (n + m) as u64;
-    80_000_000 + 1_000 * s * s
+    400_000_000 + 2_000 * s * s
 }
 
 #[derive(Debug, Clone)]
@@ -260,6 +277,7 @@ pub fn call<R>(label: &str, budget: u64, f: impl FnOnce() -> R) -> Result<R, Pan
     });
     C_COUNT.with(|c| c.set(0));
     C_BYTES.with(|c| c.set(0));
+    C_LIVE.with(|c| c.set(0));
     C_BUDGET.with(|b| b.set(budget));
     C_ARMED.with(|a| a.set(true));
     let r = std::panic::catch_unwind(std::panic::AssertUnwindSafe(f));
